@@ -18,7 +18,7 @@ from __future__ import annotations
 
 import ast
 
-from engine.cfg import expand_aliases, call_name, cfg_of
+from engine.cfg import expand_aliases, call_name, cfg_of, first_else_second, fuse_filters
 from engine.errors import AnalysisError
 from engine.repo import walk_no_nested
 from engine.util import calls_in, local_assignments, unparse, xsrc
@@ -95,7 +95,7 @@ def run(ctx):  # noqa: C901, PLR0912, PLR0915
         facts = g.facts_at(n)
         pv = {lp.target.id for lp in n.loops if isinstance(lp, ast.For) and isinstance(lp.target, ast.Name)}  # proposal loop var
         ok = any(pol is True and any(f'{v}.ContextAssociation == ' in txt for v in pv) and
-                 'ContextAssociation.ASSOCIATED' in txt and ' or ' not in txt for txt, pol in facts)
+                 'ContextAssociation.ASSOCIATED' in txt and ' or ' not in txt for txt, pol in facts.both())
         ctx.ob('C10.R1', f'_set_context_state: binding only when associated ({n.lineno and "site"})'
                .replace('site', unparse(t)) + f' #{bind.index((n, t))}', ok,
                'the binding version is set exactly when the proposed state is ASSOCIATED', fi=sc, node=n.stmt)
@@ -205,7 +205,7 @@ def run(ctx):  # noqa: C901, PLR0912, PLR0915
                       ('{x}.Handle == ignored_handle', '{x}.Handle in self._state_updates')),
                      (f'{XT}.disassociate_all',
                       ('{x}.Handle == ignored_handle', '{x}.ContextAssociation == {pm}.ContextAssociation.NO_ASSOCIATION'))):
-        fi = expand_aliases(repo.func(q))
+        fi = expand_aliases(fuse_filters(repo.func(q)))   # a select-then-act pair of loops counts as one loop
         g = cfg_of(fi)
         loops = [n for n in walk_no_nested(fi.node) if isinstance(n, ast.For) and isinstance(n.target, ast.Name)]
         marks = [n for n, t in _stores(g, {'ContextAssociation'})
@@ -282,6 +282,23 @@ def run(ctx):  # noqa: C901, PLR0912, PLR0915
             if isinstance(tgt, ast.Subscript) and isinstance(tgt.slice, ast.Attribute) and tgt.slice.attr == 'DescriptorHandle' \
                     and isinstance(tgt.slice.value, ast.Name) and isinstance(tgt.value, ast.Name):
                 counted.append((tgt.value.id, _assoc_fact(n, tgt.slice.value.id), n))
+    # ... or the library spelling of the same count: Counter(<x>.DescriptorHandle for <x> in .. if <x>.ContextAssociation == ASSOCIATED)
+    counter_fill = []
+    for n in g.real_nodes():
+        for c in n.calls():
+            if call_name(c) == 'Counter' and len(c.args) == 1 and isinstance(c.args[0], (ast.GeneratorExp, ast.ListComp)) and \
+                    len(c.args[0].generators) == 1 and isinstance(c.args[0].generators[0].target, ast.Name):
+                gen = c.args[0].generators[0]
+                x = gen.target.id
+                elt = c.args[0].elt
+                assoc = any(isinstance(t, ast.Compare) and len(t.ops) == 1 and isinstance(t.ops[0], ast.Eq) and
+                            f'{x}.ContextAssociation' in (unparse(t.left), unparse(t.comparators[0])) and
+                            'ContextAssociation.ASSOCIATED' in unparse(t) for t in gen.ifs)
+                if isinstance(elt, ast.Attribute) and elt.attr == 'DescriptorHandle' and unparse(elt.value) == x and \
+                        n.kind == 'stmt' and isinstance(n.stmt, ast.Assign) and isinstance(n.stmt.targets[0], ast.Name):
+                    counted.append((n.stmt.targets[0].id, assoc, n))
+                    if assoc:
+                        counter_fill.append(n)
     dicts = {d for d, a, _n in counted if a}
     from engine.deps import Deps
     dp = Deps(scx.node)
@@ -310,7 +327,7 @@ def run(ctx):  # noqa: C901, PLR0912, PLR0915
     fill = [n for _d, a, n in counted if a]
     ok = bool(raises) and bool(fill) and all(not n.withs for n in fill)
     # the transaction is opened only after the counting loop finished
-    loops = [h for h in g.nodes if h.kind == 'for' and any(h.stmt in n.loops for n in fill)]
+    loops = [h for h in g.nodes if h.kind == 'for' and any(h.stmt in n.loops for n in fill)] + counter_fill
     ok = ok and bool(loops) and all(g.dominates(loops[0], w) for w in withs)
     ctx.ob('C10.R4', 'double association rejected first', ok,
            'the check for more than one associated state per descriptor raises before the transaction is opened',
@@ -338,7 +355,10 @@ def run(ctx):  # noqa: C901, PLR0912, PLR0915
            'mk_context_state(descriptor_handle, context_state_handle=<handle of an existing descriptor>) is accepted: '
            'the new context state duplicates a descriptor handle, handles are no longer unique across the MDIB',
            fi=mkc)
-    ctx.ob('C10.R5', 'generated handles', 'context_state_handle or uuid.uuid4().hex' in src,
+    hs = [(n, t) for n, t in _stores(g, {'Handle'})]
+    gen_ok = bool(hs) and first_else_second(g, None, None, 'context_state_handle', 'uuid.uuid4().hex',
+                                            sites=[(n, n.stmt.value) for n, _t in hs])
+    ctx.ob('C10.R5', 'generated handles', gen_ok,
            'without an explicit handle a uuid4 is generated', fi=mkc)
     ne = repo.func('sdc11073.mdib.providermdib.ProviderEntityGetter.new_entity')
     src = xsrc(ne)
